@@ -538,6 +538,15 @@ example : (construct "POLYGON" (fun _ => true) false id exPolygons).map (fun g =
 example : (construct "POLYLINE" (fun _ => true) true id [[[1, 2, 0], [3, 4, 1]], [[5, 6, 2], [7, 8, 3], [9, 9, 4]]]).map (fun g => g.enc) =
     .ok { coords := [1, 2, 0, 3, 4, 1, 5, 6, 2, 7, 8, 3, 9, 9, 4], double := true, commonZ := none,
           indexList := some [1, 7], numAnn := 2 } := by decide
+/-- the open-shape rule is a rule of POLYGON only: a closed POLYLINE (last point = first point), a polyline of one
+repeated point and a RECTANGLE whose fourth corner repeats the first are VALID input, accepted and read back -/
+example : Valid "POLYLINE" (fun _ => true) id ([[[1, 2], [3, 4], [1, 2]], [[5, 5], [5, 5]]] : GData Int) 2 ∧
+    Valid "RECTANGLE" (fun _ => true) id ([[[1, 2], [3, 4], [5, 6], [1, 2]]] : GData Int) 2 :=
+  ⟨⟨by decide, by decide, by decide, by decide, by decide⟩, ⟨by decide, by decide, by decide, by decide, by decide⟩⟩
+example : (construct "POLYLINE" (fun _ => true) false id ([[[1, 2], [3, 4], [1, 2]], [[5, 5], [5, 5]]] : GData Int)).map
+    (fun g => (g.enc, getGraphicData (parse g) 2)) =
+    .ok ({ coords := [1, 2, 3, 4, 1, 2, 5, 5, 5, 5], double := false, commonZ := none, indexList := some [1, 7], numAnn := 2 },
+         .ok [[[1, 2], [3, 4], [1, 2]], [[5, 5], [5, 5]]]) := by decide
 /-- a closed polygon and a rectangle with three corners are not valid -/
 example : ¬ countOk "POLYGON" ([[1, 2], [3, 4], [1, 2]] : Annot Int) ∧ ¬ countOk "RECTANGLE" ([[1, 2], [3, 4], [5, 6]] : Annot Int) := by
   decide
